@@ -391,10 +391,10 @@ Section MgsSearch.
   (* the loop answers k only if the model for k is optimal and every smaller size from the lower bound on
      was proven infeasible: k is the least feasible size >= lowerbound *)
   Theorem mgsm_loop_sound lb n extra tried k : mgsm_loop status lb n extra = (tried, Some k) ->
-    feasible k /\ In k (mgsm_range lb n extra) /\ (lb <= k)%nat /\ forall k', (lb <= k' < k)%nat -> ~ feasible k'.
+    feasible k /\ In k (mgsm_range lb n extra) /\ (Nat.max 1 lb <= k)%nat /\ forall k', (Nat.max 1 lb <= k' < k)%nat -> ~ feasible k'.
   Proof.
     unfold mgsm_loop. intros H. apply mgsm_loop_on_spec in H. destruct H as (pre & Hp & post & Hks & Htr & Hs).
-    unfold mgsm_range in *. destruct (seq_split_at _ _ _ _ _ Hks) as [Hpre Hk].
+    unfold mgsm_range, mgsm_first in *. cbv zeta in Hks. destruct (seq_split_at _ _ _ _ _ Hks) as [Hpre Hk].
     split; [apply opt_feasible; exact Hs|]. split; [rewrite Hks; apply in_or_app; right; left; reflexivity|]. split; [lia|].
     intros k' Hk'. apply inf_infeasible. rewrite Forall_forall in Hp. apply Hp. rewrite Hpre. apply in_seq. lia.
   Qed.
@@ -420,6 +420,14 @@ Section MgsSearch.
       destruct (IH Hin) as (tried & k' & ->). exists (k :: tried), k'. reflexivity.
   Qed.
 End MgsSearch.
+
+(* FIXED finding mgs_lowerbound_below_one (2a5d8e1): the loop that started at the lower bound itself met the empty model k = 0
+   (status kModelEmpty = MgOther) for lowerbound 0 and stopped unsolved; the loop as it is now starts at 1 and answers *)
+Theorem mgsm_loop_from_lb_zero_refuted : exists (status : nat -> mstatus) n,
+  status 0%nat = MgOther /\ status 1%nat = MgOptimal /\
+  mgsm_loop_from_lb status 0 n 0 = ([0%nat], None) /\ mgsm_loop status 0 n 0 = ([1%nat], Some 1%nat) /\
+  mgsm_range_z (-3) n 0 = mgsm_range 0 n 0.
+Proof. exists (fun k => if (k =? 0)%nat then MgOther else MgOptimal), 1%nat. repeat split; reflexivity. Qed.
 
 (* FIXED finding #14 (03febc7): the old loop skipped an inconclusive status and reported the next size as solved;
    the loop as it is now stops unsolved on the same history *)
